@@ -27,12 +27,16 @@ Spec(e) == Apply(FmtOf(e), e.op, Args(e))
 Kind(r) == IF r.tie THEN "tie" ELSE r.cls
 
 TraceInit == l = 1
+(* (evaluated as a state function - `= TRUE` below - so that TLC caches r: a LET at action level is   *)
+(* re-evaluated at every use)                                                                        *)
+Accept(e, i) ==
+    LET r == Spec(e) IN
+    /\ Agrees(FmtOf(e), r, e.r)
+    /\ PrintT(<<"CLASS", ToJson([i |-> i, c |-> r.cls, t |-> r.tie, n |-> r.nan, s |-> r.sub, o |-> r.ovf,
+                                  x |-> r.inexact])>>)
 TraceNext ==
     /\ l <= Len(Rec)
-    /\ LET r == Spec(Ev1) IN
-       /\ Agrees(FmtOf(Ev1), r, Ev1.r)
-       /\ PrintT(<<"CLASS", ToJson([i |-> l, c |-> r.cls, t |-> r.tie, n |-> r.nan, s |-> r.sub, o |-> r.ovf,
-                                     x |-> r.inexact])>>)
+    /\ Accept(Ev1, l) = TRUE
     /\ l' = l + 1
 TraceSpec == TraceInit /\ [][TraceNext]_l
 
